@@ -50,19 +50,25 @@ def gen_value(rng, depth=0):
 
 def gen_key(rng, used):
     for _ in range(20):
-        k = weighted(rng, [("str", 8), ("int", 1), ("float", 1), ("none", 0.3)])
+        k = weighted(rng, [("str", 8), ("int", 1), ("float", 1), ("none", 0.3), ("eqint", 0.6)])
         if k == "str":
             key = rng.choice(["reward", "action", "probability", "a", "b", "c", "x y", "ké", "rewards", "z", "Z", "0"])
         elif k == "int":
             key = rng.randrange(1, 5)
         elif k == "float":
             key = rng.choice([0.5, 2.25])
+        elif k == "eqint":
+            key = rng.choice([1.0, True, 2.0, 0.0, False])      # equal to (and hashing like) an int, but printing differently
         elif k == "bool":
             key = True
         else:
             key = None
-        if str(key) not in used and str(key) not in RESERVED:
+        # within one set of rows two names must neither print the same nor compare equal (1, 1.0 and True are one dict key)
+        clash = str(key) in used or str(key) in RESERVED or any((not isinstance(u, str)) and u == key for u in used)
+        if not clash:
             used.add(str(key))
+            if key is not None and not isinstance(key, str):
+                used.add(key)
             return key
     return None if "None" not in used and not used.add("None") else f"k{len(used)}"
 
